@@ -89,6 +89,13 @@ func (m *MethodEvaluator) errorResolve() error {
 			break
 		}
 
+		// the closer of an enclosing one-line block or body belongs to that
+		// body: [3].each { |z| z.undefined } must still see its `}`
+		if nextT.IsTargetIdentifier("}") || nextT.IsEndIdentifier() {
+			m.parser.Unget()
+			break
+		}
+
 		err = m.outerEval.Eval(m.parser, m.ctx, nextT)
 		if err != nil {
 			return err
